@@ -1754,8 +1754,82 @@ def m_nd_raw_dim(I, a, t, c):
 
 @model('ndarray::impl_methods::<impl ndarray::ArrayBase<S, D>>::assign')
 def m_nd_assign(I, a, t, c):
+    dst = deref_all(I, a[0])
+    if isinstance(dst, Agg) and dst.kind == 'ndrowmut':
+        # a mutable row view handed out by multi_slice_mut: the write lands in the parent array
+        sv = deref_all(I, a[1])
+        vals = _rowmut_vals(I, sv) if isinstance(sv, Agg) and sv.kind == 'ndrowmut' else _vals(I, a[1])
+        parent = I.load(dst.fields[0])
+        if len(vals) != parent.ncols:
+            raise Panic('ndarray-assign', 'shape mismatch %d vs %d' % (len(vals), parent.ncols), t.span)
+        rows = [list(r) for r in parent.rows]
+        rows[dst.fields[1]] = list(vals)
+        I.store(dst.fields[0], Nd2(rows, parent.ncols))
+        return UNIT
     src = _nd(I, a[1])
     I.store(a[0], Nd2(src.rows, src.ncols))
+    return UNIT
+
+
+def _rowmut_vals(I, v):
+    return list(I.load(v.fields[0]).rows[v.fields[1]])
+
+
+@model('ndarray::impl_methods::<impl ndarray::ArrayBase<S, D>>::multi_slice_mut')
+def m_nd_multi_slice_mut(I, a, t, c):
+    """`arr.multi_slice_mut((s![i, ..], s![j, ..]))`: disjoint mutable row views (ndarray panics when they overlap)"""
+    n = _nd(I, a[0])
+    infos = a[1]
+    if not (isinstance(infos, Agg) and infos.kind == 'tuple'):
+        raise Unsupported('multi_slice_mut with %r' % (infos,))
+    out, seen = [], set()
+    for info in infos.fields:
+        info = deref_all(I, info) if isinstance(info, RefV) else info
+        if not (isinstance(info, Agg) and info.kind == 'sliceinfo' and len(info.fields) == 2):
+            raise Unsupported('multi_slice_mut with %r' % (info,))
+        r, cc = info.fields
+        if not (r.variant == 1 and cc.variant == 0):
+            raise Unsupported('multi_slice_mut pattern %r' % (info,))
+        i = r.fields[0]
+        if i >= len(n.rows):
+            raise Panic('ndarray-slice', 'row %d out of %d' % (i, len(n.rows)), t.span)
+        if i in seen and n.ncols:
+            raise Panic('ndarray-slice', 'multi_slice_mut: slices overlap (row %d)' % i, t.span)
+        seen.add(i)
+        out.append(Agg('ndrowmut', 0, [a[0], i]))
+    return Agg('tuple', 0, out)
+
+
+@model('<ndarray::Slice as std::convert::From<std::ops::RangeTo<usize>>>::from', '<ndarray::Slice as std::convert::From<std::ops::Range<usize>>>::from',
+       '<ndarray::Slice as std::convert::From<std::ops::RangeFrom<usize>>>::from', '<ndarray::Slice as std::convert::From<std::ops::RangeFull>>::from')
+def m_nd_slice_from(I, a, t, c):
+    full = c.full or ''
+    r = a[0] if a else None
+    if 'RangeTo<' in full:
+        return Agg('ndslice', 0, [0, I.conc(r.fields[0])])
+    if 'RangeFrom<' in full:
+        return Agg('ndslice', 0, [I.conc(r.fields[0]), None])
+    if 'RangeFull' in full:
+        return Agg('ndslice', 0, [0, None])
+    return Agg('ndslice', 0, [I.conc(r.fields[0]), I.conc(r.fields[1])])
+
+
+@model('ndarray::impl_methods::<impl ndarray::ArrayBase<S, D>>::slice_axis_inplace')
+def m_nd_slice_axis_inplace(I, a, t, c):
+    n = _nd(I, a[0])
+    ax = _axis(I, a[1])
+    sl = deref_all(I, a[2]) if isinstance(a[2], RefV) else a[2]
+    if not (isinstance(sl, Agg) and sl.kind == 'ndslice'):
+        raise Unsupported('slice_axis_inplace with %r' % (sl,))
+    size = len(n.rows) if ax == 0 else n.ncols
+    lo, hi = sl.fields
+    hi = size if hi is None else hi
+    if lo > hi or hi > size:
+        raise Panic('ndarray-slice', 'range %d..%d out of %d' % (lo, hi, size), t.span)
+    if ax == 0:
+        I.store(a[0], Nd2(n.rows[lo:hi], n.ncols))
+    else:
+        I.store(a[0], Nd2([r[lo:hi] for r in n.rows], hi - lo))
     return UNIT
 
 
@@ -1830,6 +1904,24 @@ def m_nd_view(I, a, t, c):
         return _nd(I, a[0])
     except Unsupported:
         return _view1(_vals(I, a[0]))
+
+
+@model('ndarray::impl_2d::<impl ndarray::ArrayBase<S, ndarray::Dim<[usize; 2]>>>::row')
+def m_nd_row(I, a, t, c):
+    n = _nd(I, a[0])
+    i = I.conc(a[1])
+    if i >= len(n.rows):
+        raise Panic('ndarray-index', 'row %d out of %d' % (i, len(n.rows)), t.span)
+    return _view1(n.rows[i])
+
+
+@model('ndarray::impl_2d::<impl ndarray::ArrayBase<S, ndarray::Dim<[usize; 2]>>>::column')
+def m_nd_column(I, a, t, c):
+    n = _nd(I, a[0])
+    j = I.conc(a[1])
+    if j >= n.ncols:
+        raise Panic('ndarray-index', 'column %d out of %d' % (j, n.ncols), t.span)
+    return _view1([r[j] for r in n.rows])
 
 
 @model('ndarray::impl_2d::<impl ndarray::ArrayBase<S, ndarray::Dim<[usize; 2]>>>::ncols')
